@@ -125,6 +125,19 @@ def cut_member(src, class_regex, sig_regex, occurrence=1):
     return text, bo + s, bo + e
 
 
+def cut_between(src, scope_text, scope_start, after_regex, before_regex):
+    """Region = the statements between the end of the match of after_regex and the start of the (next) match of
+    before_regex: robust against rewrites of the region itself (the anchors are the neighbouring statements)."""
+    ma = re.search(after_regex, scope_text, flags=re.S)
+    if not ma:
+        raise ExtractError('region anchor (after) not found: %s' % after_regex)
+    mb = re.search(before_regex, scope_text[ma.end():], flags=re.S)
+    if not mb:
+        raise ExtractError('region anchor (before) not found: %s' % before_regex)
+    b, e = ma.end(), ma.end() + mb.start()
+    return scope_text[b:e], scope_start + b, scope_start + e
+
+
 def cut_region(src, scope_text, scope_start, begin_regex, end_regex):
     """Inside scope_text (a function cut) return the statement range that starts at the
     match of begin_regex and ends with the match of end_regex (inclusive, and extended to
